@@ -73,15 +73,26 @@ func (s *serverSocket) checkMiddlewareFunc(rv reflect.Value) error {
 	return nil
 }
 
-func (s *serverSocket) callMiddlewares(values []reflect.Value) error {
+func (s *serverSocket) callMiddlewares(values []reflect.Value, eventName string) error {
 	// Middlewares run without the mutex held: a middleware may call Use.
 	s.middlewareFuncsMu.RLock()
 	funcs := make([]reflect.Value, len(s.middlewareFuncs))
 	copy(funcs, s.middlewareFuncs)
 	s.middlewareFuncsMu.RUnlock()
 
+	// A middleware is a func(eventName string, v ...any) error: it is given the name of the event and
+	// the arguments decoded for the handler (an acknowledgement function is not one of them).
+	args := make([]any, 0, len(values))
+	for _, v := range values {
+		if v.Kind() == reflect.Func || !v.CanInterface() {
+			continue
+		}
+		args = append(args, v.Interface())
+	}
+	in := []reflect.Value{reflect.ValueOf(eventName), reflect.ValueOf(args)}
+
 	for _, f := range funcs {
-		err := s.callMiddlewareFunc(f, values)
+		err := s.callMiddlewareFunc(f, in)
 		if err != nil {
 			return err
 		}
@@ -89,6 +100,7 @@ func (s *serverSocket) callMiddlewares(values []reflect.Value) error {
 	return nil
 }
 
+// `values` are the event name and the slice of the variadic parameter.
 func (s *serverSocket) callMiddlewareFunc(rv reflect.Value, values []reflect.Value) (err error) {
 	defer func() {
 		if r := recover(); r != nil {
@@ -99,7 +111,12 @@ func (s *serverSocket) callMiddlewareFunc(rv reflect.Value, values []reflect.Val
 			}
 		}
 	}()
-	rets := rv.Call(values)
+	var rets []reflect.Value
+	if rv.Type().IsVariadic() {
+		rets = rv.CallSlice(values)
+	} else {
+		rets = rv.Call(values)
+	}
 	ret := rets[0]
 	if ret.IsNil() {
 		return nil
